@@ -6,7 +6,9 @@ CFG = dict(
          "depth 1..8 and flush ticker 100us..1ms or none, on top of a gate the harness opens/closes (disk runs / stalls); scripts of 3..30 steps: "
          "records chunked the way the real writers chunk theirs (Write count per WriteRecord re-counted from ljh.go/off.go with go/ast on every run and "
          "written on the line), gate close followed by cap-1..cap+3 records (exactly-full / over-full), gate open, Flush/Close (also issued under a stall), "
-         "looks at the file, pauses; 25% multi-chunk clients (2/3/5/8 chunks, model = implementation only), 12% use after Close; the schedule the real "
+         "looks at the file, pauses; the PERIODIC flush is a first-class event: with tickers of 3..5 ms the harness waits until the ticker branch is blocked in the closed gate (`tb`), "
+         "lets 0..cap+1 writes land while it is stalled, lets the disk resume just long enough for that periodic flush to finish (`te`, before the next tick) and then calls "
+         "Flush at once / looks at the file / or calls Flush while it is still stalled (3 fixed cases + ~12% of script steps); 25% multi-chunk clients (2/3/5/8 chunks, model = implementation only), 12% use after Close; the schedule the real "
          "goroutine took is read back exactly (queue length accessor + gate length) and replayed step by step by the Lean model. LJH22/LJH3/OFF (3 fixed + "
          "~2.5%): the REAL ljh.Writer / ljh.Writer3 / off.Writer writing to a named pipe with a 4 KiB kernel buffer that the harness drains or not, "
          "until the 1000-deep queue is full and 1..60 records have been rejected per stall phase, then resume, Flush, Close; expected record bytes come "
@@ -28,7 +30,7 @@ CFG = dict(
 
 MANIFEST = dict(
     text="Theorems over a transition-system model of asyncbufio.Writer (bounded FIFO of chunks, non-blocking Write, consumer receives, bufio hand-over, "
-         "Flush/Close rendezvous) and of the writers' record discipline (chunk writes in order, abort at the first error), for ALL queue capacities and "
+         "periodic ticker flush as its own interruptible step tick/tickDone, Flush/Close rendezvous) and of the writers' record discipline (chunk writes in order, abort at the first error), for ALL queue capacities and "
          "ALL schedules (any interleaving; a stall is any stretch without consumer steps): q_fifo (file ++ bufio ++ channel = accepted chunks in order, "
          "channel <= cap), flush_post (at Flush/Close return everything accepted is in the file), C07_whole_records_only (one Write per record => the "
          "run-time oracle accepts: file = header ++ whole accepted records, every rejected record entirely absent), C07_header_accepted; the hypothesis "
@@ -48,6 +50,7 @@ THEOREMS = [
     ("DastardV.Props.C07", "DastardV.C07.file_prefix_of_accepted"),
     ("DastardV.Props.C07", "DastardV.C07.flush_post"),
     ("DastardV.Props.C07", "DastardV.C07.flush_post'"),
+    ("DastardV.Props.C07", "DastardV.C07.flush_post_in_tick"),
     ("DastardV.Props.C07", "DastardV.C07.C07_whole_records_state"),
     ("DastardV.Props.C07", "DastardV.C07.C07_whole_records_only"),
     ("DastardV.Props.C07", "DastardV.C07.C07_multichunk_counterexample"),
